@@ -1,6 +1,7 @@
 """C10 — no terminal stall or configuration value can hang a client call."""
 from .. import common as C, structs as S, clientgen as G
 from .c09 import baseline, HISTORIES
+from .c07 import run_histories
 
 LEAN_MODULES = ["ZvtVerif.Properties.C10"]
 TRANSLATED = {"structs", "sequences", "errors"}      # translated tables this property consumes (a translator problem elsewhere does not break its tie)
@@ -88,7 +89,17 @@ def run(ctx, out):
         # the time-out never collapses to zero: a stalled read_card exchange costs at least 2 virtual seconds per attempt
         if kd.startswith("stall@") and "readcard" in calls and results[-1][1] == 0 and cfg["timeout"] >= 0:
             pass
+    # a HEALTHY terminal (answers at once, and again pausing 1 s before every packet) under every read_card_timeout value: a
+    # time-out computation that overflows or collapses to zero for one configuration value makes the calls fail although the
+    # terminal answers — results and traffic must be those of the specification, whatever the value
+    healthy = [(G.default_cfg(max=mx, timeout=t), calls, {}, None, None) for calls, mx in HISTORIES if "readcard" in calls
+               for t in (range(256) if thorough else [0, 1, 2, 3, 15, 100, 127, 128, 253, 254, 255])]
+    run_histories(ctx, out, healthy, "healthy terminal x read_card_timeout")
+    # (the first item of an exchange arrives after two pauses — acknowledgement, then the reply — so the pause must stay below half
+    # the packet time-out `timeout + 2`: 1 s for the values from 1 on; with the value 0 a pause of 1 s IS the time-out, a tie)
+    run_histories(ctx, out, [h for h in healthy if h[0]["timeout"] in (1, 2, 255)], "healthy but slow terminal x read_card_timeout", gap=1)
+    out.count("healthy terminal x read_card_timeout", len(healthy))
     out.rule = ("a stall (terminal silent, connection open) at EVERY item of every exchange of 5 call histories (handshake included) x read_card_timeout in {0,1,15,253,254,255} (thorough: 0..255); the same with the terminal silent at that place of the retried exchange on all 1500 later connections (a client without a retry budget then needs more than the one-virtual-day watchdog) (the retry budget of each exchange must end the call); the single stalls again with a terminal that pauses 5 s before every packet (reconnect handshakes of 20 s); stalled connects, "
                 "stalls during registration on consecutive connections, a terminal that is mute for ever (70 connections); a terminal that reports a pending pre-authorisation at every query and never completes its reversal. Oracle: every call returns (no hang under a one-virtual-day watchdog, no panic) within "
-                "6 x 20 x (60 + 2 + 5 x max(60, timeout+2)) virtual seconds; implementation = model EXACTLY in results, traffic and virtual time stamps (so a time-out that overflowed or collapsed to 0 would show)")
+                "6 x 20 x (60 + 2 + 5 x max(60, timeout+2)) virtual seconds; implementation = model EXACTLY in results, traffic and virtual time stamps (so a time-out that overflowed or collapsed to 0 would show); plus every history containing read_card against a HEALTHY terminal for read_card_timeout in {0,1,2,3,15,100,127,128,253,254,255} (thorough: 0..255), and for {1,2,255} against a healthy terminal that pauses 1 s before every packet: results and traffic = specification")
     out.samples = [ops[7][:400], {"op": ops[-1][:300], "impl": impl[-1][:300]}]
